@@ -155,6 +155,23 @@ def static_checks(acc):
                     acc.violation("argument-mapped-to-wrong-avp-class:%s.%s.%s" % (lib, cls.__name__, arg),
                                   "%s.%s maps argument %r to %s; the dictionary class of that name is %s" % (lib, cls.__name__, arg, tcls.__name__, conv),
                                   {"class": "%s.%s" % key, "argument": arg, "table": tcls.__name__, "by_name": conv})
+        # the classes' own tables and signatures against the vendored copy (frozen from the reviewed tree): an edited table
+        # would otherwise move the oracle together with the code
+        frozen = _RD.load().get("command_tables", {}).get("%s.%s" % key)
+        if frozen is None:
+            acc.observe("class-without-frozen-tables:%s.%s" % key)
+        else:
+            now = {"params": params, "required": sorted(msggen.required_args(cls)),
+                   "mandatory": {k: v.__name__ for k, v in cls.mandatory.items()},
+                   "optionals": {k: v.__name__ for k, v in cls.optionals.items()}}
+            for part in ("params", "required", "mandatory", "optionals"):
+                if now[part] != frozen[part]:
+                    a, b = now[part], frozen[part]
+                    diff = sorted(set(map(str, a if isinstance(a, list) else a.items())) ^ set(map(str, b if isinstance(b, list) else b.items())))
+                    acc.violation("command-%s-differ-from-reference:%s.%s" % (part, lib, cls.__name__),
+                                  "%s.%s: %s differ from the reference tables: %s" % (lib, cls.__name__, part, diff[:6]),
+                                  {"class": "%s.%s" % key, "part": part, "now": now[part], "reference": frozen[part]})
+            acc.counters["frozen_tables_compared"] += 1
         for name in list(cls.mandatory) + list(cls.optionals):
             if name not in params:
                 kind = "mandatory" if name in cls.mandatory else "optional"
